@@ -62,6 +62,25 @@ def _topological_sort(key_less_than_values):
   return result
 
 
+def verify_acyclic(monotonicities):
+  """Raises ValueError if the given ordering pairs are circular.
+
+  Runs the same check as the projection, so that circular constraints are
+  rejected when hyperparameters are verified rather than at projection time.
+
+  Args:
+    monotonicities: List of pairs of indices `(i, j)`, indicating constraint
+      `weights[i] <= weights[j]`.
+
+  Raises:
+    ValueError: If monotonicities are circular.
+  """
+  key_less_than_values = collections.defaultdict(list)
+  for i, j in monotonicities:
+    key_less_than_values[i].append(j)
+  _topological_sort(key_less_than_values)
+
+
 def _min_projection(weights, sorted_indices, key_less_than_values, step):
   """Returns an approximate partial min projection with the given step_size.
 
